@@ -79,6 +79,32 @@ fn real_state(v: u32, pre: &[u8]) -> (Vec<u8>, u64, Vec<u8>) {
     }
 }
 
+/// really stream `n` patterned bytes (update calls of varying sizes), read the state back
+fn real_stream(v: u32, n: u64) -> (Vec<u8>, u64, Vec<u8>) {
+    macro_rules! go {
+        ($t:ident) => {{
+            let mut h = $t::default();
+            let chunk: Vec<u8> = (0..(1usize << 20)).map(|i| (i as u32).wrapping_mul(2654435761).to_le_bytes()[3] ^ (i as u8)).collect();
+            let sizes = [1usize << 20, 65537, 4096, 63, 1, 64, 129, 1 << 20, 127, 128, 256];
+            let (mut done, mut k) = (0u64, 0usize);
+            while done < n {
+                let m = (sizes[k % sizes.len()] as u64).min(n - done) as usize;
+                h.update(&chunk[..m]);
+                done += m as u64;
+                k += 1;
+            }
+            let (cv, cnt, content, pos) = h.verif_get_state();
+            (cv.to_vec(), cnt, content[..pos].to_vec())
+        }};
+    }
+    match v {
+        224 => go!(Groestl224),
+        256 => go!(Groestl256),
+        384 => go!(Groestl384),
+        _ => go!(Groestl512),
+    }
+}
+
 // ---------------------------------------------------------------------------
 // raw intrinsics (op codes as in Run/Groestl.v `intrinsic`)
 // ---------------------------------------------------------------------------
@@ -487,7 +513,7 @@ fn hook_roundtrip(v: u32, pre: &[u8], tail: &[u8]) -> Option<String> {
 fn main() {
     let argv: Vec<String> = std::env::args().collect();
     if argv.len() < 2 || argv[1] != "groestl" {
-        eprintln!("usage: h_groestl groestl [--seed N --shards N --out DIR --tier quick|thorough --streams all|reduced --runner run_c07]");
+        eprintln!("usage: h_groestl groestl [--seed N --shards N --out DIR --tier quick|thorough --streams all|reduced|hook --real N --runner run_c07]");
         std::process::exit(2);
     }
     let a = Args::parse(&argv[2..]);
@@ -495,7 +521,9 @@ fn main() {
     let shards = a.u64("shards", 16) as usize;
     let out = a.str("out", "/verif/_build/work/groestl-manual");
     let thorough = a.str("tier", "quick") == "thorough";
-    let reduced = a.str("streams", "all") == "reduced";
+    let hook_only = a.str("streams", "all") == "hook";
+    let reduced = a.str("streams", "all") == "reduced" || hook_only;
+    let real = a.u64("real", 0);
     let runner = a.str("runner", "run_c07");
     let debug = cfg!(debug_assertions);
     let profile = if debug { "debug" } else { "release" };
@@ -506,12 +534,33 @@ fn main() {
     }
 
     let mut rng = Rng::new(seed ^ 0x6705_7e51);
-    let dcases = gen_digests(&mut rng, thorough, reduced);
-    let scases = gen_states(&mut rng, thorough);
+    let dcases = if hook_only { Vec::new() } else { gen_digests(&mut rng, thorough, reduced) };
+    let mut scases = gen_states(&mut rng, thorough);
+    // C17: block counts 2^8, 2^16 (and 2^24 from the fourth case on) reached by really streaming
+    // data; the counter read back must be the number of blocks streamed, the tail then crosses it
+    let mut real_direct: Vec<String> = Vec::new();
+    let mut real_bytes = 0u64;
+    for k in 0..real {
+        let v = VARIANTS[(k as usize + 1) % 4];
+        let bs = block_size(v) as u64;
+        let p = [8u32, 16, 16, 24, 8, 24][k as usize % 6];
+        let below = [1u64, 2 * bs + 5, bs - 8, bs + 1, 3 * bs, 9][k as usize % 6]; // bytes short of 2^p blocks
+        let n = (bs << p) - below;
+        let (cv, count, buffered) = real_stream(v, n);
+        real_bytes += n;
+        if count != n / bs || buffered.len() as u64 != n % bs {
+            real_direct.push(format!(
+                "{{\"kind\":\"block_counter after really streaming\",\"variant\":{},\"streamed\":{},\"block_counter\":{},\"pos\":{}}}",
+                v, n, count, buffered.len()
+            ));
+        }
+        let tail = content(&mut rng, k as usize, below as usize + [0usize, 1, 7, bs as usize - 8, bs as usize][k as usize % 5]);
+        scases.push(SCase { v, cv, count, buffered, tail, stream: "real_stream" });
+    }
     let icases = if reduced { Vec::new() } else { gen_intrinsics(&mut rng, thorough) };
 
     // direct sanity of the hook itself
-    let mut direct: Vec<String> = Vec::new();
+    let mut direct: Vec<String> = real_direct;
     for (k, &v) in VARIANTS.iter().cycle().take(24).enumerate() {
         let bs = block_size(v);
         let pre = content(&mut rng, k, [0, 1, bs - 1, bs, 2 * bs + 3, 5 * bs][k / 4]);
@@ -644,7 +693,7 @@ fn main() {
     std::fs::write(format!("{}/cases.json", out), format!("[{}]", js.join(",\n"))).unwrap();
     let streams_js: Vec<String> = by_stream.iter().map(|(k, v)| format!("{}:{}", jstr(k), v)).collect();
     println!(
-        "{{\"evaluations\":{},\"distinct_nontrivial\":{},\"profile\":{},\"by_variant\":{{\"224\":{},\"256\":{},\"384\":{},\"512\":{}}},\"by_stream\":{{{}}},\"panics\":{},\"trivial_intrinsic_cases\":{},\"max_msg_len\":{},\"message_blocks_total\":{},\"hook_roundtrips\":24,\"direct_failures\":[{}],\"samples\":[{}]}}",
+        "{{\"evaluations\":{},\"distinct_nontrivial\":{},\"profile\":{},\"by_variant\":{{\"224\":{},\"256\":{},\"384\":{},\"512\":{}}},\"by_stream\":{{{}}},\"panics\":{},\"trivial_intrinsic_cases\":{},\"max_msg_len\":{},\"message_blocks_total\":{},\"hook_roundtrips\":24,\"really_streamed_bytes\":{},\"direct_failures\":[{}],\"samples\":[{}]}}",
         n,
         distinct.len(),
         jstr(profile),
@@ -657,6 +706,7 @@ fn main() {
         trivial,
         max_len,
         blocks_total,
+        real_bytes,
         direct.join(","),
         samples.join(",")
     );
